@@ -62,6 +62,34 @@ type term struct {
 	ev      uint64
 	// solver definition stamp (see solver.define)
 	defStamp int32
+	// variables occurring in the term: bit i for variable i < 63, bit 63 = "some variable >= 63"
+	vmask   uint64
+	vmaskOK bool
+}
+
+// varMask returns the set of variables t depends on.
+func (t *term) varMask() uint64 {
+	if t.vmaskOK {
+		return t.vmask
+	}
+	var m uint64
+	switch t.op {
+	case opConst:
+	case opVar:
+		if t.k < 63 {
+			m = 1 << t.k
+		} else {
+			m = 1 << 63
+		}
+	default:
+		for _, x := range []*term{t.a, t.b, t.c} {
+			if x != nil {
+				m |= x.varMask()
+			}
+		}
+	}
+	t.vmask, t.vmaskOK = m, true
+	return m
 }
 
 type termKey struct {
